@@ -135,11 +135,13 @@ def seasonInfo (c : Cfg) (season : Int) : Except Err (Option (Nat × Int)) :=
 /-- Control skeleton of `solution_single_time_step`, given the dates of the current season
 (`none`: "Not yet reached start of first growing season"). -/
 def solCore (ev : Ev) (s : St) (ph : Option (Nat × Int)) : St :=
-  -- "Check if growing season is active on current time step"
+  -- "Check if growing season is active on current time step":
+  -- `planting_date <= CurrentDate and harvest_date > CurrentDate and not mature and not dead`
+  -- (the latest harvest date itself is not a growing day; repository commit d260679)
   let gs : Bool :=
     match ph with
     | some (p, h) =>
-      decide ((p : Int) ≤ s.t) && decide ((s.t : Int) ≤ h) && !s.mature && !s.dead
+      decide ((p : Int) ≤ s.t) && decide ((s.t : Int) < h) && !s.mature && !s.dead
     | none => false
   -- "Increment time counters"
   let dap := if gs then s.dap + 1 else 0
